@@ -125,7 +125,7 @@ example : (match abortFlow 3 (generateUmim exState (.start 7) (AEv.startOf 7)) 0
 theorem abort_post (n : Nat) (s : State) (u : Nat) (s' : State) (f : Flow) (hf : s.flows u = some f)
     (hl : f.status.listening = true ∨ f.status = .stopping) (h : abortFlow (n + 1) s u false = .ok s') :
     ∃ f' s1 f1, s'.flows u = some f' ∧ f'.status = .stopped ∧ f'.heads = 0 ∧
-      childLoop (fun s c => abortFlow n s c true) s f.children = .ok s1 ∧ s1.flows u = some f1 ∧
+      childLoop (fun s c => abortFlow n s c true) (markNoRestart s u) f.children = .ok s1 ∧ s1.flows u = some f1 ∧
       (∀ a, a ∉ f1.actionUids → s'.actions a = s1.actions a ∧ stops a s'.out = stops a s1.out) ∧
       (f1.actionUids.Nodup → ∀ a ∈ f1.actionUids, ∃ x, s1.actions a = some x ∧ StopEffect a x s1 s') := by
   simp only [abortFlow, deactivatePhase, hf] at h
@@ -191,23 +191,30 @@ theorem finish_post (n : Nat) (s : State) (u : Nat) (s' : State) (f : Flow) (hf 
 
 /-! ## T1 `activated_restart` / `immediate_finish_guard` -/
 
-/-- Failing an instance with `activated > 0` whose restart has not been issued yet pushes ONE `StartFlow` for
-    the same flow (arguments = those of the instance, carried by `inst := u`) at the FRONT of the internal queue
-    — ahead of everything that was queued and of the `FlowFailed` events appended by the call — and sets
-    `new_instance_started`; otherwise the queue only grows at the back by `FlowFailed`/`FlowFinished` events. -/
+/-- Failing an instance: let `f1` be its record after its children have been stopped (`new_instance_started` is
+    only ever set: it is set already when the restart was issued before, and — since /repo a75cc62 — when the instance
+    fails while still STARTING, i.e. before it was started).  If `activated > 0` and `f1.nis` is not set, ONE `StartFlow`
+    for the same flow (arguments = those of the instance, carried by `inst := u`) is pushed at the FRONT of the internal
+    queue — ahead of everything that was queued and of the `FlowFailed` events appended by the call — and the flag is
+    set; otherwise the queue only grows at the back by `FlowFailed`/`FlowFinished` events. -/
 theorem activated_restart (n : Nat) (s : State) (u : Nat) (s' : State) (f : Flow) (hf : s.flows u = some f)
     (hl : f.status.listening = true ∨ f.status = .stopping) (h : abortFlow (n + 1) s u false = .ok s') :
-    ∃ f' l, s'.flows u = some f' ∧ (∀ e ∈ l, e.isEnd = true) ∧
-      ((0 < f'.activated ∧ f.nis = false) →
+    ∃ f' f1 s1 l, s'.flows u = some f' ∧
+      childLoop (fun s c => abortFlow n s c true) (markNoRestart s u) f.children = .ok s1 ∧ s1.flows u = some f1 ∧
+      (∀ e ∈ l, e.isEnd = true) ∧
+      (f.nis = true → f1.nis = true) ∧ (f.status = .starting → 0 < f.activated → f1.nis = true) ∧
+      ((0 < f'.activated ∧ f1.nis = false) →
         f'.nis = true ∧ ∃ src, s'.queue = .startFlow f.flowId src f'.activated u :: (s.queue ++ l)) ∧
-      (¬(0 < f'.activated ∧ f.nis = false) → f'.nis = f.nis ∧ s'.queue = s.queue ++ l) := by
+      (¬(0 < f'.activated ∧ f1.nis = false) → f'.nis = f1.nis ∧ s'.queue = s.queue ++ l) := by
   simp only [abortFlow, deactivatePhase, hf] at h
   obtain ⟨s1, f1, s2, s6, f6, h1, hf1, h2, _, _, q6, hf6, _, _, ac6, n6, i6, _, hr⟩ :=
     abortBody_post _ s u false s' f hf hl h
   have hst := childLoop_steps _ (abortFlow_rec_steps n) _ _ _ h1
   obtain ⟨l, hq, hle⟩ := hst.queue_append
   obtain ⟨_, _, hfr⟩ := hst.flows_rel
-  obtain ⟨f1', hf1', hu⟩ := hfr u f hf
+  obtain ⟨f0, hf0, _, _, _, _, id0, _, _, nis0, nst0, _⟩ := markNoRestart_self s u f hf
+  obtain ⟨_, _, qm, _, _⟩ := markNoRestart_frame s u
+  obtain ⟨f1', hf1', hu⟩ := hfr u f0 hf0
   rw [hf1] at hf1'; cases hf1'
   obtain ⟨g, hg, hcase⟩ := restart_spec _ _ _ _ hr
   rw [hf6] at hg; cases hg
@@ -217,27 +224,33 @@ theorem activated_restart (n : Nat) (s : State) (u : Nat) (s' : State) (f : Flow
     · exact hle e h
     · simp at h; subst h; rfl
   rcases hcase with ⟨_, ha, hn, hq', hu', _⟩ | ⟨hn, e⟩
-  · refine ⟨_, l ++ [.flowFailed u], hu', hl', ?_, ?_⟩
+  · refine ⟨_, f1, s1, l ++ [.flowFailed u], hu', h1, hf1, hl', fun h => hu.nis (nis0 h), fun a b => hu.nis (nst0 a b), ?_, ?_⟩
     · intro _
       refine ⟨rfl, restartSource s6 u f6, ?_⟩
-      rw [hq', q6, hq, i6, hu.flowId]; simp
+      rw [hq', q6, hq, qm, i6, hu.flowId, id0]; simp
     · intro hc
-      exact absurd ⟨ha, by rw [← hu.nis, ← n6]; exact hn⟩ hc
+      exact absurd ⟨ha, by rw [← n6]; exact hn⟩ hc
   · subst e
-    refine ⟨_, l ++ [.flowFailed u], hf6, hl', ?_, ?_⟩
+    refine ⟨_, f1, s1, l ++ [.flowFailed u], hf6, h1, hf1, hl', fun h => hu.nis (nis0 h), fun a b => hu.nis (nst0 a b), ?_, ?_⟩
     · intro hc
-      exact absurd ⟨rfl, hc.1, by rw [n6, hu.nis]; exact hc.2⟩ hn
+      exact absurd ⟨rfl, hc.1, by rw [n6]; exact hc.2⟩ hn
     · intro _
-      exact ⟨by rw [n6, hu.nis], by rw [q6, hq]; simp⟩
+      exact ⟨n6, by rw [q6, hq, qm]; simp⟩
 
 /-- at most once per instance: an instance whose `new_instance_started` is set is never restarted again
-    (no `StartFlow` is pushed; the flag is only ever set, see `FlowUpd.nis`) -/
+    (no `StartFlow` is pushed; the flag is only ever set, see `FlowUpd.nis`); likewise an activated instance that
+    fails while still STARTING (before it was started) is not restarted -/
 theorem restart_at_most_once (n : Nat) (s : State) (u : Nat) (s' : State) (f : Flow) (hf : s.flows u = some f)
-    (hl : f.status.listening = true ∨ f.status = .stopping) (hn : f.nis = true)
+    (hl : f.status.listening = true ∨ f.status = .stopping)
+    (hn : f.nis = true ∨ (f.status = .starting ∧ 0 < f.activated))
     (h : abortFlow (n + 1) s u false = .ok s') :
     ∃ l, s'.queue = s.queue ++ l ∧ ∀ e ∈ l, e.isEnd = true := by
-  obtain ⟨f', l, _, hl', _, h2⟩ := activated_restart n s u s' f hf hl h
-  exact ⟨l, (h2 (by simp [hn])).2, hl'⟩
+  obtain ⟨f', f1, s1, l, _, _, _, hl', m1, m2, _, h2⟩ := activated_restart n s u s' f hf hl h
+  have : f1.nis = true := by
+    rcases hn with h | ⟨a, b⟩
+    · exact m1 h
+    · exact m2 a b
+  exact ⟨l, (h2 (by simp [this])).2, hl'⟩
 
 /-- `start_new_flow_instance` label: restarts only a STARTED instance, from itself, at the front of the queue -/
 theorem label_restart_spec (s : State) (u : Nat) (f : Flow) (hf : s.flows u = some f) :
@@ -629,11 +642,11 @@ theorem abort_cyclic_as_is_counterexample : ∀ n : Nat,
   | n + 1 => by
     obtain ⟨h0, h1⟩ := abort_cyclic_as_is_counterexample n
     constructor
-    · simp [abortFlow, deactivatePhase, abortBody, childLoop, isRefActivated, isChildActivated, cyc, FStatus.listening]
+    · simp [abortFlow, deactivatePhase, abortBody, markNoRestart, childLoop, isRefActivated, isChildActivated, cyc, FStatus.listening]
       have : abortFlow n cyc 1 true = .error .fuel := h1
       simp [cyc] at this
       simp [this]
-    · simp [abortFlow, deactivatePhase, abortBody, childLoop, isRefActivated, isChildActivated, cyc, FStatus.listening]
+    · simp [abortFlow, deactivatePhase, abortBody, markNoRestart, childLoop, isRefActivated, isChildActivated, cyc, FStatus.listening]
       have : abortFlow n cyc 0 true = .error .fuel := h0
       simp [cyc] at this
       simp [this]
